@@ -345,6 +345,8 @@ def r3(ctx, facts):
                     if not same:
                         for c in cs:
                             for a in c.args:
+                                if a[0] in ("c", "m") and "{closure@" in b.local_ty(a[1][0]):
+                                    continue     # the environment of a local closure shares locals with everything it captured: no evidence
                                 sl, cs2, _ = field_slice(b, a)
                                 mm = field_slice(b, ops["max_rep_factor"])[0]
                                 if {l for l, _ in sl} & {l for l, _ in mm}:
